@@ -7,6 +7,7 @@ from common import case_line, parse_result
 from gen import bound_text, sides, wellformed_bound
 
 LEVEL = "proof"
+LYING = lambda a: "-l" in a        # which command lines of cases.rand_cli the lying-size stdin scenario keeps
 COUNTS = ["l"]        # modes of cases.count_thresholds
 BIG_IO = lambda a: "-l" in a        # which command lines of cases.rand_cli the large-input stream keeps
 
